@@ -434,13 +434,13 @@ func Run(r *mc.Run) {
 func Replay(scenario string, raw json.RawMessage) []*mc.Violation {
 	if scenario == "encoder-sequences" {
 		var in EncIn
-		if json.Unmarshal(raw, &in) == nil {
+		if mc.UnmarshalInput(raw, &in) == nil {
 			return checkEnc(scenario, in)
 		}
 		return nil
 	}
 	var in In
-	if json.Unmarshal(raw, &in) == nil {
+	if mc.UnmarshalInput(raw, &in) == nil {
 		return check(scenario, in)
 	}
 	return nil
